@@ -84,15 +84,16 @@ def queries(tier):
         if tier == "thorough":
             qs.append(c04.q(7, be, 1, outlen=32, klen=1, fam=0, form="I"))
     # share triples: masked AEAD on each triple (C back ends + assembly)
-    triples = [(4, 2, 4), (2, 1, 2), (3, 2, 3), (4, 4, 4), (4, 2, 3)] if tier == "quick" else SHARE_TRIPLES + CLAMPED_TRIPLES
+    triples = [(4, 2, 4), (2, 1, 2), (3, 2, 3), (3, 3, 3), (4, 3, 4), (4, 4, 4), (4, 2, 3)] if tier == "quick" else SHARE_TRIPLES + CLAMPED_TRIPLES
     for sh in triples:
         for be in (("c64", "x86asm") if tier == "quick" else ("c64", "c32", "x86asm")):
             for alg in ((0,) if tier == "quick" else (0, 1, 2)):
                 r = aead_rate(alg)
-                q = masked_query(Query, "C09", alg, r + 1, r + 1, be, sh, mode=0)
-                q.name = "shares:" + q.name
-                q.group = "shares"
-                qs.append(q)
+                for mode in (0, 1):       # encrypt and decrypt (the trailing partial block takes different helpers per share count)
+                    q = masked_query(Query, "C09", alg, r + 1, r + 1, be, sh, mode=mode)
+                    q.name = "shares:" + q.name
+                    q.group = "shares"
+                    qs.append(q)
     # acquire/release balance where the permutation state and the random source meet: masked AEADs with the host's real
     # random front end (which acquires its own state per draw), every share triple, checker build
     btriples = [(2, 1, 2), (4, 1, 4), (3, 2, 3), (4, 2, 4), (4, 4, 4), (3, 1, 3)] if tier == "quick" else SHARE_TRIPLES
